@@ -17,10 +17,10 @@ type ActionTrace struct {
 }
 
 type Renderer struct {
-	E       *Env
-	Covered map[parse.Node]bool
-	Trace   []ActionTrace
-	Exported map[string]string // "tree: node" -> origin, for export calls on interface{}-typed data
+	E         *Env
+	Covered   map[parse.Node]bool
+	Trace     []ActionTrace
+	Exported  map[string]string // "tree: node" -> origin, for export calls on interface{}-typed data
 	KeepTrace bool
 }
 
